@@ -9,6 +9,7 @@ import (
 	"bytes"
 	"crypto/cipher"
 	"fmt"
+	"strings"
 
 	"golang.org/x/crypto/blowfish"
 	"golang.org/x/crypto/cast5"
@@ -212,8 +213,20 @@ func run(c cipher.Block, bs int, src []byte) string {
 	return "ok " + hx.Hex(enc) + " " + hx.Hex(dec)
 }
 
+// with expect=<published ciphertext> (corpus): " kat=ok" iff the real code's Encrypt output equals it
 func exec(line string) string {
 	o := hx.Parse(line)
+	r := exec1(o)
+	if o.Has("expect") {
+		if strings.HasPrefix(r, "ok "+o.Str("expect")+" ") {
+			return r + " kat=ok"
+		}
+		return r + " kat=IMPL-MISMATCH"
+	}
+	return r
+}
+
+func exec1(o hx.Op) string {
 	if o.Cmd != "blk" {
 		return "bad-op"
 	}
